@@ -42,10 +42,12 @@ def strategy(tier):
                     st.sampled_from(APIS), st.integers(1, big) | st.integers(1, 9),
                     st.integers(-1000, 100000) | st.integers(-3, 12),
                     st.integers(0, 10 ** 7) | st.integers(0, 40) | st.integers(-30, 3))
-    red = st.builds(lambda size, na, nk, s, which: {"kind": "reduce", "size": size, "Na": na, "Nk": nk,
-                                                    "salt": s, "which": which},
+    # nested: the library routine (which opens its own parallel region) is called from inside a parallel region of the
+    # caller - the work is then shared at the caller's level only and every process computes the whole inner result
+    red = st.builds(lambda size, na, nk, s, which, nested: {"kind": "reduce", "size": size, "Na": na, "Nk": nk,
+                                                            "salt": s, "which": which, "nested": nested},
                     st.integers(1, 9), st.integers(2, 5), st.integers(1, 8), st.integers(0, 999),
-                    st.sampled_from(["rates", "tensor"]))
+                    st.sampled_from(["rates", "tensor"]), st.booleans())
     return st.one_of(rng, rng, rng, red)
 
 
@@ -287,6 +289,24 @@ def _reduce(case, ctx):
         def run():
             return rt.RedfieldRelaxationTensor._convert_operators_2_tensor(stub, Km, Lm, Ld)
     serial = run()
+    if case.get("nested"):
+        ctx.label("nested-region")
+        from quantarhei.core import parallel
+        for r in range(size):
+            with simulated_mpi(size, r) as dc:
+                dc.start_parallel_region()
+                try:
+                    inner_range = list(parallel.block_distributed_range(3, 3 + Nk))
+                    inner = run()
+                finally:
+                    dc.finish_parallel_region()
+            # (the helper used directly at the caller's level shares the work ...)
+            if size > 1 and len(inner_range) >= Nk and Nk >= size:
+                ctx.fail("partition", "nested/outer-level-not-shared", size=size, rank=r, Nk=Nk)
+                return
+            # (... and inside the routine's own region nothing is shared again)
+            ctx.close("reduction", inner, serial, where=case["which"] + "/nested", size=size, Nk=Nk, rank=r)
+        return
     total = numpy.zeros_like(serial)
     for r in range(size):
         with simulated_mpi(size, r):
